@@ -16,8 +16,11 @@ def load(run, profiles, entries, features=None):
         res = e2run.run_entries(p, features, entries)
         for e, r in res.items():
             if "error" in r:
-                from .report import ToolFault
-                raise ToolFault("E2 crashed on %s (%s):\n%s" % (e, p, r["error"]))
+                # fail closed: an entry the interpreter cannot get through is an undecided path, not a pass
+                last = [l for l in r["error"].strip().splitlines() if l.strip()][-1][:160]
+                out[(p, e)] = [{"entry": e, "exit": "undecided", "case": None, "msg": "analysis aborted: " + last, "decisions": [], "frames": []}]
+                stats.append({"entry": e, "profile": p, "terminals": 0, "blocks": 0, "statements": 0, "forks": 0, "wall_s": 0, "functions": [], "cache": "error"})
+                continue
             out[(p, e)] = r["records"]
             s = dict(r["stats"])
             s["cache"] = r.get("cache")
